@@ -25,6 +25,7 @@ RULE = ("graphs: G(n,p) n<=60 (6%: 260..700 vertices) incl. edgeless and disconn
         "12 leaves and two disjoint stars with 6 leaves each at phi in {.15,.5,.8}, and a MultiGraph star whose leaves hang on two parallel edges each (phi in {.3,.6}); non-trivial = >= 2 edges and 0 < phi < 1; "
         "distinct = SHA-1 of (graph, phi, schedule)")
 RULE += ("; rounds k-l added: " + '15% of the graphs (<= 60 vertices) on signed / one-hash / half-integer labels')
+RULE += '; round n: position cases - one bond first / last / in the middle of more than 2 000 self-loops at phi 0.02..0.04, 1 200 (quick) / 4 000 runs, exact binomial tail (violation below 1e-9)'
 ASSUMPTIONS = ["per-edge exactness needs the draw pattern 'one random.random() per edge of the copy, in edge order' (observed per run; otherwise only the "
                "structural and statistical clauses decide)", "chi-square two-stage protocol"]
 HEADLINE = ["graphs_with_labels_of_mixed_type", "calls", "per_edge_exact_checks", "edges_decided", "structure_checks", "phi0_checks", "phi1_checks", "scripted_zero", "scripted_one",
@@ -52,7 +53,48 @@ def gen_cases(tier, seed):
     for phi in (0.3, 0.6):
         # parallel edges are edges too: a MultiGraph star whose every leaf hangs on two parallel edges
         cases.append({"kind": "multistar", "phi": phi, "R": R, "seed": seed * 31 + 3, "_cost": 30})
+    # every bond alike, wherever it stands: ONE distinguished bond (first, last or in the middle of the graph's edge order) among more than
+    # two thousand self-loops, at a small phi - the answer is 2/N exactly when that bond was retained
+    for i, where in enumerate(("first", "last", "middle") if tier == "quick" else ("first", "last", "middle") * 3):
+        cases.append({"kind": "position", "where": where, "phi": (0.04, 0.02, 0.03)[i % 3], "R": 1200 if tier == "quick" else 4000, "seed": seed * 31 + 40 + i, "_cost": 40})
     return cases
+
+
+def run_position(case, res, rng):
+    import gcmpy
+    K = rng.randint(2100, 2700)
+    g = nx.Graph()
+    loops = [(v, v) for v in range(2, K + 2)]
+    where = case["where"]
+    cut = {"first": 0, "last": K, "middle": K // 2}[where]
+    g.add_nodes_from(range(K + 2))
+    g.add_edges_from(loops[:cut])
+    g.add_edge(0, 1)
+    g.add_edges_from(loops[cut:])
+    N = g.number_of_nodes()
+    phi, R = case["phi"], case["R"]
+    tap = RandomTap(seed=case["seed"], keep_log=False)
+    hits = 0
+    with installed(tap, "bond"):
+        for _ in range(R):
+            s_ = sut("bond_percolate", gcmpy.bond_percolate, g, phi)
+            res.count("calls")
+            if abs(s_ * N - 2) < 1e-9:
+                hits += 1
+            elif abs(s_ * N - 1) > 1e-9:
+                res.violate("not-a-possible-largest-component-fraction", got=s_, N=N, graph="one bond %s among %d self-loops" % (where, K)); return
+    res.count("position_samples", R)
+    # exact two-sided binomial tail of `hits` under Binomial(R, phi)
+    from ..stats import binom_pmf
+    pmf = binom_pmf(R, phi)
+    p_obs = pmf[hits]
+    tail = sum(q for q in pmf if q <= p_obs * (1 + 1e-9))
+    res.nontrivial = True
+    res.digest = digest(["position", where, case["seed"]])
+    res.sample = {"kind": "position", "where": where, "phi": phi, "R": R, "retained": hits, "expected": R * phi, "two_sided_tail": tail}
+    if tail < 1e-9:
+        res.violate("a-bond's-retention-frequency-depends-on-where-it-stands-in-the-graph", where=where, edges=K + 1, phi=phi, runs=R, retained=hits,
+                    expected=R * phi, exact_two_sided_binomial_tail=tail)
 
 
 def make_graph(rng):
@@ -205,6 +247,9 @@ def run_case(case):
     import gcmpy
     res = Result()
     rng = random.Random(case["seed"])
+    if case["kind"] == "position":
+        run_position(case, res, rng)
+        return res
     if case["kind"] == "graph":
         kind, g = make_graph(rng)
         if case.get("large"):
